@@ -1,4 +1,4 @@
 From Coq Require Import List ZArith NArith Extraction ExtrOcamlBasic.
-From DDP Require Import Lang.Syntax Lang.F64 Lang.RefSem Lang.Prec Lower.Ops Lower.Tie.
+From DDP Require Import Lang.Syntax Lang.F64 Lang.RefSem Lang.Prec Lower.Ops Lower.Tie Lower.ExprCompile Lower.StmtCompile.
 Extraction Language OCaml.
-Extraction "c01_model.ml" exec_program lower_top render parse.
+Extraction "c01_model.ml" exec_program lower_top render parse block_ok compile_stmt mblock m_observe init_mstate.
